@@ -417,9 +417,81 @@ def gen_shared(rng, tier):
     return cases
 
 
+MAPPED_NAMES = ["first_tags", "top_score", "my_level", "key_map", "opt_val", "old_ids"]
+MAPPER_MODES = ["class-ser", "class-deser", "lower", "camel", "override", "camelflag"]
+
+
+def gen_mapped(rng, tier):
+    """directed stream: key-renaming mappers (class-level dict `_serialization_mapper` / `_deserialization_mapper`,
+    TO_LOWERCASE, TO_CAMELCASE, `Deserializer(mapper=…)` / `deserialize_structure(mapper=…)`, camel_case_convert) on
+    classes whose fields are collections, Enum, scalars (flat, modelled) or AnyOf / nested structures (oracle only);
+    two-word snake_case field names, so that every document key differs from every field name; the document is
+    written under the document keys; invalid: one or two fields.
+    Region: which NAME the error path is built from when field name and document key differ."""
+    cases = []
+    reps = 3 if tier == "quick" else 14
+    ci = 0
+    for _ in range(reps):
+        for mode in MAPPER_MODES:
+            for nested in (False, True):
+                ci += 1
+                kinds = NESTED_KINDS + ["anyOf"] if nested else FLAT_KINDS
+                dg = gen.DeclGen(rng, max_depth=2 if nested else 1, allow=kinds, p_constraint=0.45)
+                vg = gen.ValGen(rng)
+                n = rng.randint(2, 4)
+                names = rng.sample(MAPPED_NAMES, n)
+                cls = dg.class_decl(0, n_fields=n)
+                cls["fields"] = [[nm, fd] for nm, (_, fd) in zip(names, cls["fields"])]
+                if not nested:
+                    # make sure collections / Enum dominate (scalars use their own _name anyway)
+                    for i in range(len(cls["fields"])):
+                        if rng.random() < 0.6:
+                            dg2 = gen.DeclGen(rng, max_depth=1, p_constraint=0.45,
+                                              allow=["seqOf", "setOf", "tupleOf", "mapOf", "seqPos", "tuplePos", "enumCls", "enumLit",
+                                                     "seqAny", "mapAny", "setAny"] + FLAT_SCALARS)
+                            cls["fields"][i][1] = dg2.decl(0)
+                cls["name"] = f"M{ci}"
+                cls["required"] = sorted(nm for nm in names if rng.random() < 0.4)
+                cls["addl"] = True
+                cls.pop("ignoreNone", None)
+                C.fix_accepts(cls)
+                base = {}
+                for nm, fd in cls["fields"]:
+                    v = vg.valid(fd)
+                    if v is gen.NOVALUE:
+                        cls["required"] = [r for r in cls["required"] if r != nm]
+                    else:
+                        base[nm] = v
+                if not base:
+                    continue
+                keymap = mapper_keys(mode, names, rng)
+                mp = {"mode": mode, "map": sorted(keymap.items())}
+                valid_kw = [[k, v] for k, v in base.items()]
+                decl_of = dict((nm, fd) for nm, fd in cls["fields"])
+                good = list(base)
+                for sub in [[x] for x in good] + ([rng.sample(good, 2)] if len(good) > 1 else []):
+                    kw = dict(base)
+                    ways = []
+                    for nm in sub:
+                        if nested:
+                            kw[nm] = corrupt_doc(rng, vg, base[nm])
+                            ways.append("mapped-nested")
+                        else:
+                            way, v = invalid_value(rng, vg, decl_of[nm], base[nm])
+                            kw[nm] = v
+                            ways.append(way)
+                    kwl = [[k, v] for k, v in kw.items()]
+                    for entry in ("Deserializer", "deserialize_structure"):
+                        for ff in (True, False):
+                            cases.append({"suite": "errors", "cls": cls, "kw": kwl, "mode": "nested" if nested else "deser",
+                                          "ff": ff, "entry": entry, "mapper": mp, "valid_kw": valid_kw, "sub": sub,
+                                          "ways": ways + ["mapper:" + mode], "re": gen.re_table(cls, kwl, valid_kw)})
+    return cases
+
+
 def gen_cases(rng, tier):
     n = 160 if tier == "quick" else 1400
-    return fixed_cases() + gen_directed(rng, tier) + gen_shared(rng, tier) + gen_flat(rng, tier, n) + gen_nested(rng, tier, 60 if tier == "quick" else 500)
+    return fixed_cases() + gen_directed(rng, tier) + gen_shared(rng, tier) + gen_mapped(rng, tier) + gen_flat(rng, tier, n) + gen_nested(rng, tier, 60 if tier == "quick" else 500)
 
 
 # ------------------------------------------------------------------ documents and lifting
@@ -534,6 +606,56 @@ def run_history(cls, pre, ctx):
     return out
 
 
+def camel(name):
+    parts = name.split("_")
+    return parts[0] + "".join(x.title() for x in parts[1:])
+
+
+def mapper_keys(mode, names, rng):
+    """field -> document key for a key-renaming mapper of the given kind (computed here, not by typedpy)"""
+    if mode in ("lower",):
+        return {n: n.upper() for n in names}
+    if mode in ("camel", "camelflag"):
+        return {n: camel(n) for n in names}
+    tmpl = rng.choice(["doc_{}", "{}Key", "the{}", "x{}_in"])
+    return {n: tmpl.format(n) for n in names if rng.random() < 0.85}
+
+
+def apply_mapper(cls, mp):
+    """the class as a user would declare it with the mapper (a subclass of the same name carrying the
+    mapper attribute), or the arguments that pass the mapper to the deserializer"""
+    from typedpy import mappers
+    mode, keymap = mp["mode"], dict(mp["map"])
+    if mode == "class-ser":
+        return type(cls.__name__, (cls,), {"_serialization_mapper": keymap}), {}
+    if mode == "class-deser":
+        return type(cls.__name__, (cls,), {"_deserialization_mapper": keymap}), {}
+    if mode == "lower":
+        return type(cls.__name__, (cls,), {"_serialization_mapper": mappers.TO_LOWERCASE}), {}
+    if mode == "camel":
+        return type(cls.__name__, (cls,), {"_serialization_mapper": mappers.TO_CAMELCASE}), {}
+    if mode == "override":
+        return cls, {"mapper": keymap}
+    if mode == "camelflag":
+        return cls, {"camel_case_convert": True}
+    raise ValueError(mode)
+
+
+def mapper_sanity(cls, mp, deser_kwargs, case, ctx):
+    """the mapper is in effect: the case's VALID document, written under the document keys,
+    deserializes; returns a reason if not (the case is then skipped)"""
+    valid = case.get("valid_kw")
+    if not valid:
+        return None
+    keymap = dict(mp["map"])
+    try:
+        doc = {keymap.get(k, k): to_doc(v, ctx) for k, v in valid}
+        Deserializer(cls, **deser_kwargs).deserialize(doc)
+        return None
+    except Exception as e:  # noqa
+        return f"valid document rejected under mapper {mp['mode']}: {type(e).__name__}: {str(e)[:120]}"
+
+
 def run_impl(case):
     ctx = C.make_ctx()
     decl = case["cls"]
@@ -549,7 +671,11 @@ def run_impl(case):
     mode = case["mode"]
     decl_of = dict((n, fd) for n, fd in decl["fields"])
     share_inner_fields(cls, case.get("share", []), ctx)
-    history = run_history(cls, case.get("pre", []), ctx)
+    mp = case.get("mapper")
+    deser_kwargs = {}
+    if mp:
+        cls, deser_kwargs = apply_mapper(cls, mp)
+    history = run_history(cls, case.get("pre", []), ctx) if not mp else []
     try:
         if mode == "construct":
             kw = {k: dump.load_value(v, ctx) for k, v in case["kw"]}
@@ -571,6 +697,15 @@ def run_impl(case):
         res["order"] = list(cls.get_all_fields_by_name())
         res["scratch"] = [[n, [getattr(x, "_name", None) for x in inner_field_objs(getattr(cls, n))]]
                           for n in res["order"] if inner_field_objs(getattr(cls, n))]
+    # the document as handed to the real code: every field under its mapped (document) key
+    keymap = dict(mp["map"]) if mp else {}
+    real_doc = {keymap.get(k, k): v for k, v in kw.items()} if mode != "construct" else None
+    if mp and mode != "construct":
+        res["mapper"] = [[k, v] for k, v in keymap.items()]
+        res["raw_doc_actual"] = [[keymap.get(k, k), dump.dump_value(v, ctx)] for k, v in kw.items()]
+        ok = mapper_sanity(cls, mp, deser_kwargs, case, ctx)
+        if ok is not None:
+            return {"unbuildable": "mapper: " + ok}
     ff = bool(case["ff"])
     Structure.set_fail_fast(ff)
     try:
@@ -578,9 +713,9 @@ def run_impl(case):
             if mode == "construct":
                 cls(**kw)
             elif case.get("entry") == "deserialize_structure":
-                deserialize_structure(cls, kw)
+                deserialize_structure(cls, real_doc, **deser_kwargs)
             else:
-                Deserializer(cls).deserialize(kw)
+                Deserializer(cls, **deser_kwargs).deserialize(real_doc)
             res["raised"] = None
         except Exception as e:  # noqa
             res["raised"] = C.err_name(e)
@@ -666,6 +801,9 @@ def line(case, impl):
          "ff": bool(case["ff"]), "mode": case["mode"], "re": case.get("re", [])}
     if impl.get("doc_actual") is not None:
         l["doc"] = impl["doc_actual"]
+        if impl.get("mapper"):
+            l["doc"] = impl["raw_doc_actual"]
+            l["mapper"] = impl["mapper"]
         l["order"] = impl.get("order", [])
         l["scratch"] = impl.get("scratch", [])
     if impl.get("msg") is not None:
@@ -851,6 +989,24 @@ def oracle(case, impl, model):
         fails.append((f"helper-raises:{helper['raises']}",
                       f"standard_readable_error_for_typedpy_exception raised {helper['raises']} ({helper.get('text')}) for {msg!r} [{where}]"))
         return fails
+    if case.get("mapper") and raised is not None and msg:
+        # whatever the field kind (AnyOf and nested structures included): the leading path must never be
+        # a DOCUMENT key of the mapper that names no field
+        fields_ = [n for n, _ in case["cls"]["fields"]]
+        dockeys = [dk for f, dk in case["mapper"]["map"] if dk not in fields_]
+        try:
+            ts = json.loads(msg) if not ff else [msg]
+            ts = ts if isinstance(ts, list) and all(isinstance(x, str) for x in ts) else [msg]
+        except Exception:
+            ts = [msg]
+        for t in ts:
+            bare = re.sub(r"^" + re.escape(case["cls"]["name"]) + r"\.", "", t)
+            p = path_of_text(bare)
+            if p and any(p == dk or p.startswith(dk + "_") for dk in dockeys) and \
+                    not any(names_field(p, case["cls"]["name"], f) for f in fields_):
+                fails.append(("wrong-field:document-key",
+                              f"the message path is the document key, not the field (mapper {case['mapper']}): {t!r} [{where}]"))
+                break
     if mode == "nested" or not model.get("flat"):
         return fails
     invalid = model["invalid"]
